@@ -9,7 +9,7 @@
    describe the same document, for every value.  The colouring interpreters
    and the options are compared with these by the harness. *)
 From Coq Require Import NArith List Bool Permutation String.
-From GJ Require Import Spec.Json Model.Enc Model.EncIndent Proofs.EncP Proofs.ParseP Proofs.ParseWsP Proofs.EncIndentP Gen.UtilShape.
+From GJ Require Import Spec.Json Model.Enc Model.EncIndent Proofs.EncP Proofs.ParseP Proofs.ParseWsP Proofs.EncIndentP Proofs.IndentRefP Gen.UtilShape.
 Import ListNotations.
 Open Scope string_scope.
 Open Scope list_scope.
@@ -51,6 +51,15 @@ Theorem C13_indent_and_compact_same_document : forall pre ind v,
   parse_json (marshal_indent pre ind v) = Some (toks v, []) /\ parse_json (marshal v) = Some (toks v, []).
 Proof. intros pre ind v Hp Hi Hw. split; [exact (parse_marshal_indent pre ind Hp Hi v Hw)|exact (parse_marshal v Hw)]. Qed.
 Print Assumptions C13_indent_and_compact_same_document.
+
+(* MarshalIndent(v, p, i) = Indent(Marshal(v), p, i), byte for byte, for every prefix and indent (any bytes): the
+   reference of encoding/json.Indent (Spec.render_indent; compared with encoding/json on every run by C18's check)
+   applied to the tokens read from Marshal's text gives exactly the bytes the indenting interpreter writes *)
+Theorem C13_marshal_indent_is_indent_of_marshal : forall pre ind v, wfp (strip v) = true ->
+  Some (marshal_indent pre ind v) =
+  match parse_json (marshal v) with Some (ts, _) => Some (render_indent pre ind 0 None ts) | None => None end.
+Proof. exact marshal_indent_is_indent_of_marshal. Qed.
+Print Assumptions C13_marshal_indent_is_indent_of_marshal.
 
 Example C13_indent_example :
   let v := JObj [([97], false, JArr [JLeaf (TNum [49]); JObj []; JArr []]); ([98], true, JLeaf TTrue); ([99], false, JObj [([100], false, JLeaf TNull)])] in
